@@ -116,7 +116,7 @@ EXPORT errno_t _wcsnset_s_chk(wchar_t *restrict dest, rsize_t dmax, wchar_t valu
     }
 #ifdef SAFECLIB_STR_NULL_SLACK
     /* null slack to clear any data */
-    if (!*dest)
+    if ((rsize_t)(dest - orig_dest) < dmax && !*dest)
         memset(dest, 0, (dmax - (dest - orig_dest)) * sizeof(wchar_t));
 #endif
 
